@@ -400,6 +400,8 @@ def _run(pid, spec, known, tier, seed, workdir, logdir, t0, only) -> int:
             f.write(cg.stdout + cg.stderr)
         errl = [l for l in (cg.stdout + cg.stderr).splitlines() if l.startswith("error")]
         return finish(pid, spec, asm, tier, seed, [], t0, fatal="Kani codegen failed: " + " | ".join(errl[:6]))
+    if spec.get("only_obligations") and not only:
+        only = list(spec["only_obligations"])
     obs = select(asm.obligations, tier, seed, only)
     jobs: List[Job] = []
     for ob in obs:
